@@ -100,7 +100,7 @@ def resolve(case, cap):
             n = ds_spec[1]
         else:
             n = max(0, ds_spec[1] * f + ds_spec[2])
-        n = min(n, cap, 400 * f)
+        n = min(n, cap) if case.get("nocap") else min(n, cap, 400 * f)
     return mx, n
 
 
@@ -121,7 +121,7 @@ def check_fragment(ctx, case):
     from pynetdicom.dimse_messages import DIMSEMessage
     from pynetdicom.pdu_primitives import P_DATA
 
-    cap = 300_000 if ctx.quick else 2_000_000
+    cap = 10**8 if case.get("nocap") else (300_000 if ctx.quick else 2_000_000)
     desc, role, cid = case["desc"], case["role"], case["cid"]
     kind = desc["kind"]
     m = C.MESSAGES[kind]
@@ -417,9 +417,24 @@ def boundary_cases():
                 }
 
 
+def big_cases():
+    """A few large data sets around 1 MiB (and a multiple of it) with the peer's maximum 0 (= unlimited: one fragment) and ordinary maxima,
+    in memory and file-backed: sizes no unit test comes near (the repository's chunked-send test uses a 39 kB file)."""
+    base_rq = {"kind": "C-STORE-RQ", "params": {"AffectedSOPClassUID": "1.2.840.10008.5.1.4.1.1.2", "MessageID": 1, "Priority": 2, "AffectedSOPInstanceUID": "1.2.3.4"}, "dataset": None}
+    i = 0
+    for n in (1048576 - 6, 1048576, 1048576 + 2, 2 * 1048576 + 4):
+        for mx in (0, 16382, 65542):
+            for file in (False, True):
+                i += 1
+                yield {"desc": base_rq, "max": ["abs", mx], "other_max": 16382, "role": "requestor" if i % 2 else "acceptor", "cid": 1 + 2 * (i % 5),
+                       "groups": [[1], [1000000]][i % 2], "ds": ["abs", n], "ds_seed": 3, "file": file, "offset": (0, 132)[i % 2], "nocap": True}
+
+
 def run(ctx):
     with E.no_sleep():
         cases = [c for i, c in enumerate(boundary_cases()) if i % ctx.nshards == ctx.shard]
+        if ctx.shard == 0:
+            cases += list(big_cases())
         ctx.each("fragment", cases)
         ctx.extra["boundary_sweep_cases"] = len(cases)
         ctx.hyp("fragment", _strategy(ctx.quick), 2600 if ctx.quick else 6500)
